@@ -26,7 +26,9 @@ use std::sync::Mutex as StdMutex;
 // Everything of std::sync that is not modelled is std's own item: the simulator's build rewrites
 // `std::sync::` into `dmntk_verif_sync::` throughout the dmntk crates.
 pub use std::sync::{atomic, mpsc};
-pub use std::sync::{Arc, Barrier, BarrierWaitResult, Condvar, LockResult, PoisonError, TryLockError, TryLockResult, WaitTimeoutResult, Weak};
+pub use std::sync::{Arc, Barrier, BarrierWaitResult, LockResult, PoisonError, TryLockError, TryLockResult, Weak};
+pub use SimCondvar as Condvar;
+pub use SimWaitTimeoutResult as WaitTimeoutResult;
 
 /// `true` while a shuttle execution is running on this process.
 static SIM_ACTIVE: AtomicBool = AtomicBool::new(false);
@@ -1241,5 +1243,142 @@ impl<T, F: FnOnce() -> T> Deref for LazyLock<T, F> {
 impl<T: fmt::Debug, F> fmt::Debug for LazyLock<T, F> {
   fn fmt(&self, f: &mut fmt::Formatter<'_>) -> fmt::Result {
     f.debug_struct("LazyLock").field("cell", &self.cell).finish()
+  }
+}
+
+// ------------------------------------------------------------------------------------------------
+// Condvar (works with the Mutex of this module)
+// ------------------------------------------------------------------------------------------------
+
+/// Result of a timed wait, like `std::sync::WaitTimeoutResult`.
+#[derive(Debug, Clone, Copy, PartialEq, Eq)]
+pub struct SimWaitTimeoutResult(bool);
+
+impl SimWaitTimeoutResult {
+  pub fn timed_out(&self) -> bool {
+    self.0
+  }
+}
+
+/// A condition variable with the API of `std::sync::Condvar` for [Mutex] of this module. Outside a
+/// simulated execution it delegates to a real `std::sync::Condvar`; inside, waiters park and `notify_*`
+/// unparks them. A timed wait is modelled as a wait whose time-out may fire at once (a correct program
+/// has to cope with that schedule anyway).
+pub struct SimCondvar {
+  inner: std::sync::Condvar,
+  waiters: StdMutex<Vec<(usize, shuttle::thread::Thread)>>,
+}
+
+impl SimCondvar {
+  pub const fn new() -> Self {
+    Self {
+      inner: std::sync::Condvar::new(),
+      waiters: StdMutex::new(Vec::new()),
+    }
+  }
+
+  pub fn wait<'a, T>(&self, mut guard: MutexGuard<'a, T>) -> LockResult<MutexGuard<'a, T>> {
+    let lock = guard.lock;
+    if !guard.sim {
+      // real threads: hand the inner guard to the real condition variable
+      let inner = guard.inner.take().expect("guard alive");
+      std::mem::forget(guard);
+      return match self.inner.wait(inner) {
+        Ok(g) => Ok(MutexGuard { inner: Some(g), lock, sim: false, task: 0 }),
+        Err(p) => Err(PoisonError::new(MutexGuard { inner: Some(p.into_inner()), lock, sim: false, task: 0 })),
+      };
+    }
+    let task = me();
+    {
+      let mut w = self.waiters.lock().unwrap_or_else(PoisonError::into_inner);
+      if !w.iter().any(|(t, _)| *t == task) {
+        w.push((task, shuttle::thread::current()));
+      }
+    }
+    drop(guard); // releases the mutex (a scheduling point for the others)
+    shuttle::thread::park();
+    self.waiters.lock().unwrap_or_else(PoisonError::into_inner).retain(|(t, _)| *t != task);
+    lock.lock()
+  }
+
+  pub fn wait_while<'a, T, F>(&self, mut guard: MutexGuard<'a, T>, mut condition: F) -> LockResult<MutexGuard<'a, T>>
+  where
+    F: FnMut(&mut T) -> bool,
+  {
+    while condition(&mut *guard) {
+      guard = self.wait(guard)?;
+    }
+    Ok(guard)
+  }
+
+  pub fn wait_timeout<'a, T>(&self, guard: MutexGuard<'a, T>, dur: std::time::Duration) -> LockResult<(MutexGuard<'a, T>, SimWaitTimeoutResult)> {
+    let lock = guard.lock;
+    if !guard.sim {
+      let mut guard = guard;
+      let inner = guard.inner.take().expect("guard alive");
+      std::mem::forget(guard);
+      return match self.inner.wait_timeout(inner, dur) {
+        Ok((g, r)) => Ok((MutexGuard { inner: Some(g), lock, sim: false, task: 0 }, SimWaitTimeoutResult(r.timed_out()))),
+        Err(p) => {
+          let (g, r) = p.into_inner();
+          Err(PoisonError::new((MutexGuard { inner: Some(g), lock, sim: false, task: 0 }, SimWaitTimeoutResult(r.timed_out()))))
+        }
+      };
+    }
+    drop(guard);
+    shuttle::thread::yield_now();
+    match lock.lock() {
+      Ok(g) => Ok((g, SimWaitTimeoutResult(true))),
+      Err(p) => Err(PoisonError::new((p.into_inner(), SimWaitTimeoutResult(true)))),
+    }
+  }
+
+  pub fn notify_one(&self) {
+    if !sim_active() {
+      self.inner.notify_one();
+      return;
+    }
+    let first = {
+      let mut w = self.waiters.lock().unwrap_or_else(PoisonError::into_inner);
+      if w.is_empty() {
+        None
+      } else {
+        Some(w.remove(0))
+      }
+    };
+    if let Some((_, t)) = first {
+      if std::thread::panicking() {
+        DEFERRED.lock().unwrap_or_else(PoisonError::into_inner).push(t);
+      } else {
+        t.unpark();
+      }
+    }
+  }
+
+  pub fn notify_all(&self) {
+    if !sim_active() {
+      self.inner.notify_all();
+      return;
+    }
+    let all: Vec<(usize, shuttle::thread::Thread)> = std::mem::take(&mut *self.waiters.lock().unwrap_or_else(PoisonError::into_inner));
+    for (_, t) in all {
+      if std::thread::panicking() {
+        DEFERRED.lock().unwrap_or_else(PoisonError::into_inner).push(t);
+      } else {
+        t.unpark();
+      }
+    }
+  }
+}
+
+impl Default for SimCondvar {
+  fn default() -> Self {
+    Self::new()
+  }
+}
+
+impl fmt::Debug for SimCondvar {
+  fn fmt(&self, f: &mut fmt::Formatter<'_>) -> fmt::Result {
+    f.debug_struct("Condvar").finish_non_exhaustive()
   }
 }
